@@ -99,6 +99,14 @@ class C13(Prop):
             if ctx.returns(p, "C13.to_pda"):
                 x = ctx.call(O.extract_pda, p.value)
                 if ctx.returns(x, "C13.to_pda.extract"):
+                    if not case[1][2] and scheme == "plain":
+                        # the grammar without productions also exists as CFG() (no start symbol, handed out by
+                        # CFG.intersection for an empty language)
+                        pb = ctx.call(O.cfgmod().CFG().to_pda)
+                        if ctx.returns(pb, "C13.to_pda", operand="CFG()"):
+                            xb = ctx.call(O.extract_pda, pb.value)
+                            if ctx.returns(xb, "C13.to_pda.extract", operand="CFG()"):
+                                self._cmp(ctx, "C13.to_pda.lang", xb.value.lang_empty_stack(n), set(), operand="CFG()")
                     _, from_s = word_map(case[1], scheme if scheme == "mixedter" else "plain")
                     self._cmp(ctx, "C13.to_pda.lang", {from_s(w) for w in x.value.lang_empty_stack(n)}, ref["L"],
                               result=x.value.describe())
